@@ -249,7 +249,9 @@ CHECKS = {
                      "the signature header's offset/size/CRCs describe the bytes on disk; for every filter list of the documented "
                      "chains (with and without 7zAES) the coder chain built by SevenZipCompressor and rebuilt by "
                      "SevenZipDecompressor has the same stages in mirrored order and per-stage unpack sizes that describe what each "
-                     "stage consumed. The primitive codecs (lemma L0) are re-proved over their full domains.",
+                     "stage consumed; the wrapper written around an encoded or encrypted header is read by the reference and says "
+                     "where the packed header lies, how long it is and how long the raw header is. The primitive codecs (lemma L0) "
+                     "are re-proved over their full domains.",
                 note="codec libraries replaced by a contract stub; NUMBER fields summarised as tokens justified by L0; CRC32 "
                      "collision-free abstraction; member count/kinds enumerated as stated bounds; an independent reader "
                      "*decoding* real payloads and 7zAES key derivation are outside"),
